@@ -159,10 +159,12 @@ class TokString(Token):
         bracket is not part of the string.
         """
         if self._multiline_quote is not None:
-            if self._data[:2] in (b'\r\n', b'\n\r'):
-                return self._data[2:]
-            if self._data[:1] in (b'\n', b'\r'):
-                return self._data[1:]
+            # ... and every line break inside the brackets (LF, CR LF, LF CR
+            # or CR) is a newline in the value.
+            data = re.sub(br'\r\n|\n\r|\r', b'\n', self._data)
+            if data[:1] == b'\n':
+                return data[1:]
+            return data
         return self._data
 
     @property
